@@ -108,6 +108,7 @@ func VH02b_push() {
 	wq := verif.Choice("wqlen", 3)
 	verif.Assert(sock.SetOption(mangos.OptionWriteQLen, wq) == nil, lab+"/set-wqlen")
 	side := vt.Listen(sock, "a")
+	vt.ChooseErrors() // lost connections report ErrClosed or the raw reset error
 	peers := []*vt.Pipe{side.Peer("p0"), side.Peer("p1")}
 	var bodies [][]byte
 	for i := 0; i < N; i++ {
@@ -337,6 +338,7 @@ func VH02h_inflight_loss() {
 	sock := vp.New(proto)
 	verif.Assert(sock.SetOption(mangos.OptionWriteQLen, 1) == nil, lab+"/set-wqlen")
 	side := vt.Listen(sock, "a")
+	vt.ChooseErrors() // lost connections report ErrClosed or the raw reset error
 	good := side.Peer("good")
 	bad := side.Peer("bad")
 	bad.SendMode = vt.SendHold
@@ -397,6 +399,7 @@ func VH02i_idle_loss() {
 	sock := vp.New(proto)
 	verif.Assert(sock.SetOption(mangos.OptionWriteQLen, 2) == nil, lab+"/set-wqlen")
 	side := vt.Listen(sock, "a")
+	vt.ChooseErrors() // lost connections report ErrClosed or the raw reset error
 	np := 2 + verif.Choice("peers", 2)
 	var peers []*vt.Pipe
 	for i := 0; i < np; i++ {
@@ -466,6 +469,7 @@ func VH02j_pair_reconnect() {
 	wq := 1 + verif.Choice("wqlen", 3) // 1..3
 	verif.Assert(sock.SetOption(mangos.OptionWriteQLen, wq) == nil, lab+"/set-wqlen")
 	side := vt.Listen(sock, "a")
+	vt.ChooseErrors() // lost connections report ErrClosed or the raw reset error
 	p1 := side.Peer("p1")
 	mode := vt.SendBlock // the stuck write fails when the connection goes
 	if verif.Choice("late-success", 2) == 1 {
